@@ -453,9 +453,12 @@ def work(shard):
 # parameters without a type character: their type is the DEFtype default in force at each call
 
 DEFTYPES = {'!': 'DEFSNG', '%': 'DEFINT', '#': 'DEFDBL', '$': 'DEFSTR'}
-DT_GLOBALS = 'X!=5:X%=6:X#=8:X$="g":G!=3'
-DT_SNAP = '"[";X!;X%;X#;X$;G!;"]"'
-DT_SNAP_TEXT = '[ 5  6  8 g 3 ]'
+DT_GLOBALS = 'X!=5:X%=6:X#=8:X$="g":G!=3:P!=9'
+DT_SNAP = '"[";X!;X%;X#;X$;G!;P!;"]"'
+DT_SNAP_TEXT = '[ 5  6  8 g 3  9 ]'
+# a second function whose first parameter has a fixed type: called once at the start, and at the end with a second
+# argument that no longer converts when X has become an integer (the call fails; P! is what it was)
+DT_OVERFLOW_CALL = 'PRINT FNB(1,40000)'
 
 
 def deftype_cases(maxlen):
@@ -476,7 +479,8 @@ def deftype_program(case):
             calls.append(('PRINT "<";FNS$("ab");">";', '<abs>'))
         else:
             calls.append(('PRINT "<";FNA(1.75);">";', '< 7 >' if t == '%' else '< 6.5 >'))
-    stmts = [DT_GLOBALS, 'DEF FNA(X)=X*2+G!:DEF FNS$(X)=X+"s"', calls[0][0]]
+    stmts = [DT_GLOBALS, 'DEF FNA(X)=X*2+G!:DEF FNS$(X)=X+"s":DEF FNB(P!,X)=P!+X', calls[0][0] + ':PRINT "<";FNB(1,2);">";']
+    calls[0] = (calls[0][0], calls[0][1] + '< 3 >')
     for t, c in zip(case['types'], calls[1:]):
         stmts.append('%s %s:%s' % (DEFTYPES[t], case['range'], c[0]))
     stmts.append('PRINT %s;' % DT_SNAP)
@@ -503,6 +507,8 @@ def judge_deftype(part, case):
                 if r.exc is not None or r.out.strip():
                     raise CheckError('line not accepted: %r -> %r' % (l, r))
             runs = [b'RUN'] + [st.encode('ascii') for st in stmts[2:]]
+            if case['types'][-1:] == '%':
+                runs.insert(-1, DT_OVERFLOW_CALL.encode('ascii'))
         err = None
         for cmd in runs:
             r = H.run(s, cmd)
@@ -510,6 +516,11 @@ def judge_deftype(part, case):
             if r.exc is not None:
                 part.violation('deftype/host-exception/%s' % H.exc_key(r.exc), '%r raised %r' % (cmd, r.exc), case)
                 return
+            if cmd == DT_OVERFLOW_CALL.encode('ascii'):
+                if r.err != 6:
+                    part.violation('deftype/num/overflowing-argument-accepted', '%r after %r gave error %r, output %r; expected Overflow' % (
+                        cmd, stmts, r.err, r.out), case)
+                continue
             out += r.out
             err = err or r.err
         part.traces += 1
